@@ -44,6 +44,9 @@ pub struct HistCfg {
     pub w_compound: u32,
     /// replacements whose argument meets ']' / '>' on either side of the replaced range, even with safe strings
     pub seams: bool,
+    /// weight of navigation steps: the caller reads the children of a node in mid-history and keeps the handles it
+    /// finds (snapshots of merged text nodes among them), then edits around and with them
+    pub w_navigate: u32,
 }
 
 fn pick_str(g: &mut Genes, pool: &[&str]) -> String {
@@ -66,13 +69,51 @@ pub fn gen_history(g: &mut Genes, cfg: &HistCfg) -> Json {
     let nd = if cfg.max_doc == 0 { START_DOCS.len() } else { cfg.max_doc.min(START_DOCS.len()) };
     let d1 = g.pick(nd);
     let d2 = g.pick(nd);
-    let merged = g.chance(1, 4);
+    // (the navigating shards spend half of their histories in the merged-text view, where handles are snapshots)
+    let merged = if cfg.w_navigate > 0 { g.chance(1, 2) } else { g.chance(1, 4) };
     let n = g.range(0, cfg.max_ops);
     let names = if cfg.safe_strings { SAFE_NAMES } else { NAMES };
     let data = if cfg.safe_strings { SAFE_DATA } else { DATA };
     let mut ops: Vec<Json> = vec![];
     for _ in 0..n {
-        let class = g.weighted(&[cfg.w_struct, cfg.w_attr, cfg.w_chardata, cfg.w_create, cfg.w_compound]);
+        let class = g.weighted(&[cfg.w_struct, cfg.w_attr, cfg.w_chardata, cfg.w_create, cfg.w_compound, cfg.w_navigate]);
+        if class == 5 {
+            let d = g.raw();
+            let rp = g.raw();
+            let pk = ["element", "container", "attr", "detached-element", "document"][g.weighted(&[8, 2, 2, 2, 1])];
+            let pspec = json!([rp, pk]);
+            // often a text-like node is put next to what is there first, so that the parent shows a run of several pieces
+            if g.chance(1, 2) {
+                let create = ["create_text", "create_cdata", "create_text"][g.pick(3)];
+                ops.push(json!({"op": create, "d": d, "s": pick_str(g, data)}));
+                if g.chance(2, 3) {
+                    ops.push(json!({"op": "append", "p": pspec.clone(), "c": [65535, "recent"]}));
+                } else {
+                    ops.push(json!({"op": "insert_before", "p": pspec.clone(), "c": [65535, "recent"], "r": [g.raw(), "child-of", pspec.clone()]}));
+                }
+            }
+            ops.push(json!({"op": "children", "p": pspec.clone()}));
+            // then calls around and with the handles just taken: a piece or a neighbour moves away through its own handle,
+            // the handle read before that is used afterwards
+            let follow = 1 + g.pick(3);
+            for _ in 0..follow {
+                let c = match g.weighted(&[3, 3, 2, 2]) {
+                    0 => json!([g.raw(), "recent"]),
+                    1 => json!([g.raw(), "child-of", pspec.clone()]),
+                    2 => json!([g.raw(), "text"]),
+                    _ => json!([g.raw(), "expandedtext"]),
+                };
+                let qk = ["element", "element", "attr", "detached-element", "recent"][g.pick(5)];
+                let q = json!([g.raw(), qk]);
+                match g.weighted(&[4, 3, 2, 2]) {
+                    0 => ops.push(json!({"op": "append", "p": q, "c": c})),
+                    1 => ops.push(json!({"op": "insert_before", "p": q.clone(), "c": c, "r": [g.raw(), "child-of", q]})),
+                    2 => ops.push(json!({"op": "replace", "p": q.clone(), "n": c, "o": [g.raw(), "child-of", q]})),
+                    _ => ops.push(json!({"op": "remove", "p": pspec.clone(), "c": c})),
+                }
+            }
+            continue;
+        }
         if class == 4 {
             let d = g.raw();
             let rp = g.raw();
@@ -678,7 +719,7 @@ fn apply_inner(pool: &mut Pool, kind: &str, op: &Json) -> Outcome {
             out
         }
         // the caller navigates and keeps what it finds: the children of a node as they are *now* become operands
-        // (only hand-written histories use this; a handle on a merged text node taken in mid-history is one of them)
+        // (hand-written histories and the navigating shards use this; a handle on a merged text node taken in mid-history is one of them)
         "children" => {
             let pi = pool.idx(&op["p"]);
             let p = pool.nodes[pi].clone();
